@@ -51,7 +51,7 @@ def run_case(case):
             return ('ok', np.asarray(d).tolist(), np.asarray(info.error_estimate).tolist(), np.diag(H).tolist(), np.diag(np.atleast_2d(hinfo.error_estimate)).tolist())
         if mode == 'history':
             # one object: call, move the point IN PLACE, call with other extra arguments, call again at x0
-            G = lambda z, s=1.0, t=0.0: F(z) * s + t
+            G = lambda z, s=1.0, t=0.0: F(z) * s * (1.0 + t)       # BOTH extra arguments change the Hessian (keyword t: factor 1 + t)
             cls = nd.Hessian if arg[0] == 'Hessian' else nd.Hessdiag
             obj = cls(G, method=method, full_output=arg[1])
             x = np.array(x0) + 0.25
@@ -63,6 +63,47 @@ def run_case(case):
             return ('ok', [np.asarray(pick(r2)).tolist(), np.asarray(pick(r3)).tolist()], arg)
     except Exception as ex:
         return ('raise', '%s: %s' % (type(ex).__name__, str(ex)[:160]))
+
+
+def int_poly(n):
+    """an integer polynomial built from products only (f of an integer point is an integer): f, exact Hessian at x"""
+    def f(x):
+        acc = x[0] * x[0] * x[n - 1]
+        for i in range(n):
+            for j in range(i, n):
+                acc = acc + (i + j + 1) * x[i] * x[j]
+        return acc
+
+    def hess(x):
+        H = np.zeros((n, n))
+        for i in range(n):
+            for j in range(i, n):
+                H[i, j] += (i + j + 1)
+                H[j, i] += (i + j + 1)
+        H[0, 0] += 2 * x[n - 1]
+        if n > 1:
+            H[0, n - 1] += 2 * x[0]
+            H[n - 1, 0] += 2 * x[0]
+        else:
+            H[0, 0] += 4 * x[0]
+        return H
+    return f, hess
+
+
+def run_int_case(case):
+    vlib.use_repo()
+    import numdifftools as nd
+    n, method, as_list = case
+    f, hess = int_poly(n)
+    xi = [1, 2, 3, -2, 4, 1][:n]
+    x = list(xi) if as_list else np.array(xi)            # integers, not floats
+    try:
+        with np.errstate(all='ignore'):
+            H = nd.Hessian(f, method=method)(x)
+            d = nd.Hessdiag(f, method=method if method != 'central2' else 'central')(x)
+    except Exception as ex:
+        return ('raise', '%s: %s' % (type(ex).__name__, str(ex)[:160]))
+    return ('ok', np.asarray(H, dtype=float).tolist(), np.asarray(d, dtype=float).tolist(), hess(np.array(xi, dtype=float)).tolist())
 
 
 def run(tier, rep):
@@ -136,12 +177,26 @@ def run(tier, rep):
         elif mode == 'history':
             cls = arg[0]
             w2 = want * 1.0 if cls == 'Hessian' else np.diag(want)
-            for got, s, lab in ((o[1][0], 1.0, 'second call (extra args s=1, t=3)'), (o[1][1], -0.5, 'third call (s=-0.5)')):
+            for got, s, lab in ((o[1][0], 4.0, 'second call (extra args s=1, keyword t=3: factor 4)'), (o[1][1], -0.5, 'third call (s=-0.5)')):
                 got = np.asarray(got)
-                if not np.abs(got - s * w2).max() <= 10 * tol * ENV['hessian']['hessdiag_factor']:
+                if not np.abs(got - s * w2).max() <= 10 * tol * ENV['hessian']['hessdiag_factor'] * max(1.0, abs(s)):
                     rep.violation('history:%s:%s' % (cls, method), dict(case=name, got=got.tolist(), want=(s * w2).tolist()),
                                   '%s: %s on a reused %s object returns %s, exact %s' % (name, lab, cls, got.tolist(), (s * w2).tolist()))
                     break
+    # integer points with an integer-valued polynomial (dtype of f(x0) must not leak into the work arrays)
+    icases = [(n, method, as_list) for n in (1, 2, 3, 5) for method in ('central', 'central2', 'forward', 'backward', 'complex', 'multicomplex') for as_list in (True, False)]
+    for (n, method, as_list), o in zip(icases, vlib.pool_map(run_int_case, icases, chunksize=4)):
+        name = 'integer point n=%d %s %s' % (n, method, 'list' if as_list else 'int ndarray')
+        if o[0] == 'raise':
+            rep.violation('raises:int:%s' % method, dict(case=name), '%s raised %s' % (name, o[1]))
+            continue
+        nchk += 1
+        H, d, want_i = np.array(o[1]), np.array(o[2]), np.array(o[3])
+        tol_i = tol_for(method, False) * max(1.0, np.abs(want_i).max()) * 10
+        if H.shape != want_i.shape or not np.abs(H - want_i).max() <= tol_i:
+            rep.violation('int-point:hessian:%s' % method, dict(case=name, got=H.tolist(), want=want_i.tolist()), '%s: Hessian %s, exact %s' % (name, np.round(H, 6).tolist(), want_i.tolist()))
+        elif not np.abs(np.ravel(d) - np.diag(want_i)).max() <= tol_i * ENV['hessian']['hessdiag_factor']:
+            rep.violation('int-point:hessdiag:%s' % method, dict(case=name, got=np.ravel(d).tolist(), want=np.diag(want_i).tolist()), '%s: Hessdiag %s, exact diagonal %s' % (name, np.ravel(d).tolist(), np.diag(want_i).tolist()))
     if os.environ.get('VERIF_SURVEY'):
         for k_ in sorted(worst):
             print('SURVEY', k_, '%.3g' % worst[k_])
